@@ -60,7 +60,7 @@ among bits 1..14 -/
 theorem kb_ok : ∀ n, n < 256 → 2 ≤ (rol32 (tbl (UInt8.ofNat n)) 48 ^^^ tbl (UInt8.ofNat n)).toNat % 2^15 := by
   decide +kernel
 
-theorem kb_ok' (b : UInt8) : 2 ≤ (rol32 (tbl b) 48 ^^^ tbl b).toNat % 2^15 := by
+theorem kb_ok_byte (b : UInt8) : 2 ≤ (rol32 (tbl b) 48 ^^^ tbl b).toNat % 2^15 := by
   have := kb_ok b.toNat b.toNat_lt
   rwa [UInt8.ofNat_toNat] at this
 
@@ -137,7 +137,7 @@ theorem chain (cfg : Cfg) (hs : Std cfg) (b : UInt8) : ∀ (fuel : Nat) (st : St
         subst hm
         rw [← hr, suf_head b win hsuf, UInt32.xor_assoc] at htr'
         have := rol1_low h _ htr htr'
-        have := kb_ok' b
+        have := kb_ok_byte b
         omega
       · exact chain cfg hs b fuel { st with buz := some (win.drop 1 ++ [b], r) }
           _ _ (m + 1) rfl (suf_roll b m win hsuf (by omega)) (by omega) (by omega) htr' hcur (by omega)
